@@ -103,6 +103,13 @@ def run(ck: Check):
     scs = [conssim.gen_scenario(rng, i) for i in range(n)]
     for sc in scs:
         sc["faults"]["apis"] = ["OffsetCommit", "OffsetCommit", "Heartbeat", "JoinGroup", "SyncGroup", "FindCoordinator"]
+        # a third of the runs: a user deserializer failing transiently on a few records (getmany() raises,
+        # the application keeps polling)
+        if rng.random() < 0.35:
+            total = sum(n for parts in sc["preload"].values() for n in parts.values())
+            for c in sc["consumers"]:
+                if total and rng.random() < 0.7:
+                    c["bad_rids"] = rng.sample(range(total), min(total, rng.choice([1, 2, 3])))
     results = conssim.run_scenarios(scs, timeout=ck.n(900, 3000))
     traces = []
     nbad = 0
